@@ -401,6 +401,55 @@ func c09(c *an.Ctx) {
 		}
 	})
 
+	c.Check("R-PROV", "the merge mode is handed down unchanged: every merge function that receives a MergeMode passes that very value to the merge functions it calls (no per-type or per-field override of Intersection)", 6, func(o *an.O) {
+		isMode := func(t types.Type) bool {
+			n := an.NamedOf(t)
+			return n != nil && n.Obj().Name() == "MergeMode"
+		}
+		n := 0
+		for _, fn := range p.ModuleFuncs(func(rel string) bool { return rel == fed }) {
+			var own ssa.Value
+			for _, prm := range fn.Params {
+				if isMode(prm.Type()) {
+					own = prm
+				}
+			}
+			if own == nil {
+				continue
+			}
+			for _, g := range an.WithAnons(fn) {
+				an.Instrs(g, func(i ssa.Instruction) {
+					cc := an.CallOf(i)
+					if cc == nil {
+						return
+					}
+					callee := cc.StaticCallee()
+					if callee == nil {
+						return
+					}
+					for k, prm := range callee.Params {
+						if !isMode(prm.Type()) || k >= len(cc.Args) {
+							continue
+						}
+						n++
+						o.Site(i)
+						arg := cc.Args[k]
+						if fv, ok := arg.(*ssa.FreeVar); ok && g != fn {
+							_ = fv
+							continue // a closure using the enclosing function's mode
+						}
+						if arg != own {
+							o.FailAt(i, "%s merges with %s instead of the mode it was given: under Intersection a part of the schema would be merged as a Union (or the reverse), so the gateway advertises something one of the live versions rejects", an.QualName(fn), an.Short(an.Expr(arg), 60))
+						}
+					}
+				})
+			}
+		}
+		if n < 6 {
+			o.Undecided("found only %d calls that hand a MergeMode down (expected the merge functions' calls of each other)", n)
+		}
+	})
+
 	c.Check("R-CONST", "versions of one service are intersected inside the per-service loop; services are united afterwards", 3, func(o *an.O) {
 		modeOf := func(v ssa.Value) string { s, _ := an.ConstString(an.StripConv(v)); return s }
 		psv := c.NeedFunc(fed, "processSchemaVersions")
